@@ -96,7 +96,7 @@ class Emitter:
 
     def sort_of(self, t):
         op = t[0]
-        if op in ('fvar', 'fconst', 'fadd', 'fsub', 'fmul', 'fdiv', 'fneg', 'fsqrt', 'fabs', 'ffloor', 'fceil', 'fround', 'ftrunc', 'i2f', 'exp', 'ln', 'app',
+        if op in ('fvar', 'fconst', 'fbits', 'fadd', 'fsub', 'fmul', 'fdiv', 'fneg', 'fsqrt', 'fabs', 'ffloor', 'fceil', 'fround', 'ftrunc', 'i2f', 'exp', 'ln', 'app',
                   'finf', 'fninf', 'fnan', 'fmin', 'fmax', 'fite', 'f2f32'):
             return self.fsort()
         if op in ('ivar', 'iconst', 'iadd', 'isub', 'imul', 'idiv', 'irem', 'f2i', 'imin', 'imax', 'iite'):
@@ -130,6 +130,11 @@ class Emitter:
             if self.relax:
                 return rat(v)
             return str(v) if v >= 0 else '(- %d)' % -v
+        if op == 'fbits':
+            if R:
+                import struct
+                return rat(Fraction(struct.unpack('<d', struct.pack('<Q', t[1]))[0]))
+            return '((_ to_fp %d %d) #x%016x)' % (self.eb, self.sb, t[1])
         if op == 'fconst':
             return rat(t[1]) if R else '((_ to_fp %d %d) RNE %s)' % (self.eb, self.sb, rat(t[1]))
         if op in ('fadd', 'fsub', 'fmul', 'fdiv'):
